@@ -283,6 +283,48 @@ def find_bin_consts():
     return top, low
 
 
+# narrowing integer conversions of 64-bit values that the current source contains: (function, from type, to type)
+NARROWING_ALLOWED = {("s_sba_find_bin", "size_t", "int32_t")}   # aws_clz_i32((int32_t)next_pow2), next_pow2 <= 512
+
+
+def narrowing_casts():
+    """obligation on source/allocator_sba.c (typed AST, clang): no 64-bit value (a size, a product of sizes, a pointer
+    difference) is converted to a narrower integer type, explicitly or implicitly, except at the sites listed above.
+    The model's sizes are unbounded naturals below 2^64: a request truncated to 32 bits (4 GiB + 40 -> 40) would be served
+    from a bin, and the harness cannot back a >= 4 GiB calloc with real memory to show it at run time."""
+    from gen import cfun
+    repo = cbuild.REPO
+    src = os.path.join(repo, "source", "allocator_sba.c")
+    inc = ["-I" + os.path.join(repo, "include"), "-I" + cbuild.config_include(), "-I" + os.path.join(repo, "source")]
+    text = open(src).read()
+    fns = {}
+    try:
+        for pre in ("s_", "aws_small_block", "sba_"):
+            fns.update(cfun.dump_functions(f'#include "{src}"\n', pre, inc))
+    except cfun.GenError as e:
+        raise GenError("allocator_sba.c: " + str(e))
+
+    def walk(n):
+        yield n
+        for c in n.get("inner", []) or []:
+            if isinstance(c, dict):
+                yield from walk(c)
+    for name, fn in sorted(fns.items()):
+        if not re.search(r"\b" + re.escape(name) + r"\s*\(", text):
+            continue
+        for node in walk(fn):
+            if node.get("kind") in ("ImplicitCastExpr", "CStyleCastExpr") and node.get("castKind") == "IntegralCast":
+                try:
+                    to, fr = cfun.ctype_of(node), cfun.ctype_of(node["inner"][0])
+                except cfun.GenError:
+                    continue
+                if isinstance(to, tuple) and isinstance(fr, tuple) and to[0] != "ptr" and fr[0] == 64 and to[0] < 64:
+                    ft, tt = node["inner"][0].get("type", {}).get("qualType", "?"), node.get("type", {}).get("qualType", "?")
+                    if (name, ft, tt) not in NARROWING_ALLOWED:
+                        raise GenError(f"{name}() in allocator_sba.c converts a 64-bit `{ft}` value to the {to[0]}-bit type `{tt}`: "
+                                       "a size of 4 GiB or more is truncated (the model's sizes are not)")
+
+
 def dispatch_tests():
     """the size tests that decide between bins and parent, from the source text:
     s_sba_alloc `if (size <op> s_max_bin_size)` (generated as servedByBin), the three tests of s_sba_mem_realloc and
@@ -347,6 +389,7 @@ def regen(ctx):
         pb = purge_bounds()
         fb_top, fb_low = find_bin_consts()
         served = dispatch_tests()
+        narrowing_casts()
     except GenError as e:
         write_if_changed(os.path.join(LEAN, "AwsVerif", "Gen", "SbaConsts.lean"),
                          "/-! GENERATED by props/c03.py: the translator rejected the current source -/\n#check (translator_rejected_the_source : Nat)\n")
